@@ -1027,7 +1027,9 @@ func callBuiltin(caller *frame, callpos token.Pos, fn *ssa.Builtin, args []value
 		}
 		if n > 0 && &dst[0] != &src[0] {
 			tmp := make([]value, n)
-			copy(tmp, src[:n])
+			for i := 0; i < n; i++ {
+				tmp[i] = copyVal(src[i])
+			}
 			for i := 0; i < n; i++ {
 				setCell(&dst[i], tmp[i])
 			}
